@@ -189,6 +189,10 @@ pub fn check(v: &View) -> Vec<Violation> {
                             crate::log::probe("c11_above_limit");
                             if c.exit.is_some() {
                                 out.push(violation(P, "completed-above-limit", sig, format!("actor {aidx}: invocation for message {} needs {d} > timeout {t} but ran to completion (t={}..{})", c.id, c.enter_vt, c.exit_vt)));
+                            } else if v.fault_injected(a) && a.dead.is_some() && a.dead_vt < c.enter_vt + t {
+                                // the invocation was ended by an injected failure (cancellation,
+                                // panic) before its limit was reached: not a timeout at all
+                                crate::log::probe("c11_slow_invocation_ended_by_fault");
                             } else {
                                 if first_abandon.is_none() {
                                     first_abandon = Some(c);
